@@ -67,10 +67,10 @@ type FloatV struct {
 type NumForm uint8
 
 const (
-	NFInt  NumForm = iota // integer syntax, e.g. 12
-	NFDot                 // K.0  (Scale==0) or fractional digits (Scale>0)
-	NFExp                 // Ke0
-	NFBad                 // not a number at all (e.g. "abc")
+	NFInt NumForm = iota // integer syntax, e.g. 12
+	NFDot                // K.0  (Scale==0) or fractional digits (Scale>0)
+	NFExp                // Ke0
+	NFBad                // not a number at all (e.g. "abc")
 )
 
 type NumText struct {
@@ -149,7 +149,8 @@ type ArrayV struct {
 	Elems []Value
 	Org   Origin
 	ET    types.Type
-	Abs   *StrV // non-nil: the bytes of an abstract string ([]byte(s) of a number text)
+	Orig  []Value // document arrays: the members as the caller supplied them (counterexamples describe the input, not what a faulty call left behind)
+	Abs   *StrV   // non-nil: the bytes of an abstract string ([]byte(s) of a number text)
 }
 
 type SliceV struct {
@@ -158,11 +159,13 @@ type SliceV struct {
 }
 
 type MapV struct {
-	Keys []Value
-	Vals []Value
-	Org  Origin
-	KT   types.Type
-	VT   types.Type
+	Keys               []Value
+	Vals               []Value
+	OrigKeys, OrigVals []Value // document objects as supplied (see ArrayV.Orig)
+	HasOrig            bool
+	Org                Origin
+	KT                 types.Type
+	VT                 types.Type
 	// order hint for lazily materialised documents
 	ID int
 }
@@ -180,9 +183,9 @@ type Cell struct {
 	Nm  string
 }
 
-func (c *Cell) Load() Value     { return c.V }
-func (c *Cell) Store(v Value)   { c.V = v }
-func (c *Cell) Origin() Origin  { return c.Org }
+func (c *Cell) Load() Value    { return c.V }
+func (c *Cell) Store(v Value)  { c.V = v }
+func (c *Cell) Origin() Origin { return c.Org }
 
 type FieldRef struct {
 	S *StructV
